@@ -344,6 +344,11 @@ def compare(case, li, op, impl, model):
             scale = info.get('scale_x')
             if _cut_active(info) and info['smin'] ** 2 >= EPS[info['T']] / 16.0 and info['op'] == 'ls.svd':
                 return True     # a singular value within a factor 16 of the absolute cut: either branch may be taken
+        if tol >= 0.5:
+            # the rounding-error bound of the explicit inverse exceeds the result itself (u * cond^2 >~ 1: far outside the property's
+            # domain for this scalar type, e.g. two float rows that agree to 5 digits): Eigen's LDLT / SVD and the model's produce
+            # garbage of different kinds (finite vs NaN included) — nothing to compare
+            return True
         if any(math.isnan(x) != math.isnan(y) for x, y in zip(va, vb)):
             return False
         fin = [(x, y) for x, y in zip(va, vb) if not math.isnan(x)]
@@ -510,9 +515,32 @@ def _sequence(rng, T, tier, idx):
             lines.append(_precond(rng, T, e, tok))
         use_w = rng.chance(0.4)
         if use_w:
-            for i in range(n):
-                if rng.chance(0.8):
-                    lines.append('ls.w %d %s' % (i, tok(_rnd(T, rng.uniform(0.25, 4.0)))))
+            wmode = rng.below(4)
+            if wmode == 0 and n >= 2:
+                # STRUCTURED weights: mean-normalised (they sum EXACTLY to n without being all one: dyadic pairs w, 2 - w), a
+                # single non-unit weight, constant c != 1 — aggregate statistics of the weight vector (sum, mean, min, max) equal
+                # those of the default all-ones vector although the weights differ (seeded change c07d: a "default weights" early
+                # return when W.sum() == n)
+                ws = [1.0] * n
+                sub = rng.below(3)
+                if sub == 0:
+                    for i in range(0, n - 1, 2):
+                        d = rng.choice([0.5, 0.25, 0.75, 0.125])
+                        ws[i], ws[i + 1] = 1.0 - d, 1.0 + d
+                elif sub == 1:
+                    quad = [0.25, 0.75, 1.25, 1.75]
+                    for i in range(0, n - 3, 4):
+                        ws[i:i + 4] = quad
+                else:
+                    i, j = rng.below(n), rng.below(n)
+                    if i != j:
+                        ws[i], ws[j] = 0.5, 1.5
+                for i in range(n):
+                    lines.append('ls.w %d %s' % (i, tok(_rnd(T, ws[i]))))
+            else:
+                for i in range(n):
+                    if rng.chance(0.8):
+                        lines.append('ls.w %d %s' % (i, tok(_rnd(T, rng.uniform(0.25, 4.0)))))
         ests = rng.choice([['ls.svd'], ['ls.chol'], ['ls.svd', 'ls.chol'], ['ls.chol', 'ls.svd'], ['ls.svd', 'ls.cov'],
                            ['ls.chol', 'ls.cov', 'ls.svd']])
         for o in ests:
